@@ -242,6 +242,13 @@ def shard_dialogue(P, vtag, all_metrics, n, seed):
         check_dialogue(P, vtag, all_metrics, answers)
         if P.evaluations % 301 == 1:
             P.sample({"dialogue": {"version": vtag, "all_metrics": all_metrics, "answers": answers}})
+    # a long run of rejected answers (blank, or the same illegal one) at ONE question -- each question in turn --, then the
+    # right answers: whatever the builder returns after giving up, skipping or insisting must still be valid
+    for j, q in enumerate(order):
+        right = DLG.script_for(order, targets[j % len(targets)])
+        bad = "" if T.ND[ver] not in T.VALUES[ver][q] and j % 2 == 0 else "zz"
+        P.stratum("dialogue-long-run-of-rejected-answers")
+        check_dialogue(P, vtag, all_metrics, right[:j] + [bad] * (60, 260, 1100)[j % 3] + right[j:])
     # end of input at every index: whatever the builder RETURNS must still be valid
     full = DLG.script_for(order, targets[0])
     for i in range(len(full) + 1):
